@@ -360,6 +360,45 @@ def run(ctx, warn=False):
             res.violation("I2-STEP", Q["Vertex(universes=)"], "universe-subclass-calling-back-from-add_vertex", f"Vertex(universes={list(order)}) where k is a Universe subclass whose add_vertex makes the vertex leave u: I2 broken: {'; '.join(bad[:3])}",
                           replay="from edgegraph.structure import *\nclass K(Universe):\n    rival = None\n    def add_vertex(self, v):\n        super().add_vertex(v)\n        if self.rival in v.universes: v.remove_from_universe(self.rival)\n"
                                  "u, u2, k = Universe(), Universe(), K(); k.rival = u\nn = Vertex(universes=[u, k, u2])\nprint(n.universes, [n in x.vertices for x in (u, k, u2)])")
+    # a user universe class whose `in` answers by label: a second vertex carrying the label of a member joins / a non-member leaves
+    from sa.ae import DictV as _DictV
+    for call in ("a2.add_to_universe(cat)", "cat.add_vertex(a2)", "a2.remove_from_universe(cat)", "cat.remove_vertex(a2)"):
+        try:
+            h.reset()
+            cat = h.new("LabelUni", "cat")
+            a1 = h.new("Vertex", "a1", attributes=_DictV([["label", "A"]]))
+            a2 = h.new("Vertex", "a2", attributes=_DictV([["label", "A"]]))
+            r0 = h.call(h.I.getattr(cat, "add_vertex"), a1)
+            if r0.kind != "return":
+                raise Unknown(f"cat.add_vertex(a1) gives {r0!r}")
+            h.settle()
+            if call == "a2.add_to_universe(cat)":
+                out = h.call(h.I.getattr(a2, "add_to_universe"), cat)
+            elif call == "cat.add_vertex(a2)":
+                out = h.call(h.I.getattr(cat, "add_vertex"), a2)
+            elif call == "a2.remove_from_universe(cat)":
+                out = h.call(h.I.getattr(a2, "remove_from_universe"), cat)
+            else:
+                out = h.call(h.I.getattr(cat, "remove_vertex"), a2)
+            st = {"members": {"cat": names(h.getattr(cat, "vertices").value)}, "universes": {"a1": names(h.getattr(a1, "universes").value), "a2": names(h.getattr(a2, "universes").value)}}
+            bad = i2_violations(st)
+        except Unknown as u:
+            res.ob(False)
+            res.undecide(f"universe class with a label-based __contains__, {call}: {u}")
+            continue
+        m += 1
+        adding = "add" in call
+        why = ("I2 broken: " + "; ".join(bad[:3])) if bad else None
+        if why is None and adding and not (out.kind == "return" and st["members"]["cat"] == ["a1", "a2"] and st["universes"]["a2"] == ["cat"]):
+            why = f"the call gives {out!r}; afterwards cat.vertices = {st['members']['cat']}, a2.universes = {st['universes']['a2']}: a2 is another object than a1 and joins"
+        if why is None and not adding and not (out.kind == "raise" and st["members"]["cat"] == ["a1"] and st["universes"]["a2"] == []):
+            why = f"the call gives {out!r}; afterwards cat.vertices = {st['members']['cat']}, a2.universes = {st['universes']['a2']}: removing the non-member a2 raises and changes nothing"
+        res.ob(why is None, sig=("label-universe", call))
+        if why:
+            res.violation("I2-STEP", {"a2.add_to_universe(cat)": Q["v.add_to_universe"], "cat.add_vertex(a2)": Q["u.add_vertex"], "a2.remove_from_universe(cat)": Q["v.remove_from_universe"], "cat.remove_vertex(a2)": Q["u.remove_vertex"]}[call],
+                          "universe-subclass-with-its-own-__contains__", f"cat is a Universe subclass whose `in` answers by label; a1 (label A) is a member, a2 (label A) is not; {call}: {why}",
+                          replay="from edgegraph.structure import *\nclass Cat(Universe):\n    def __contains__(self, x):\n        return any(getattr(m, 'label', None) == getattr(x, 'label', '?') for m in self.vertices)\n"
+                                 f"cat = Cat(); a1 = Vertex(attributes={{'label': 'A'}}); a2 = Vertex(attributes={{'label': 'A'}})\ncat.add_vertex(a1)\n{call}\nprint(cat.vertices, a2.universes)")
     res.rule("I2-CONSTRUCT", m)
     from rules import hist
     hist.run(ctx, res, 'C02')       # composition: histories through the public API against the reference model (rules/hist.py)
